@@ -78,6 +78,7 @@ namespace vf
     Sink sink;                       // in a child: results of the current batch; in the parent: merged
     Marker *marker = nullptr;        // shared with the parent
     uint64_t skip_through = 0;       // cases with number <= this are skipped (resume after a crash)
+    std::vector<uint64_t> dead_cases; // case numbers of this unit that killed earlier workers (never to be re-executed)
     uint64_t only_case = 0;          // confirm mode: run only this case number
     uint64_t case_no = 0;            // running case number within the unit
     bool in_child = false;
@@ -119,6 +120,22 @@ namespace vf
       s.marker->active = 1;
     }
     return true;
+  }
+  // records what is being executed without opening a case (shown if the worker dies there)
+  inline void note(const std::string &text)
+  {
+    State &s = st();
+    if (s.marker && !s.marker->active)
+    {
+      size_t n = std::min(text.size(), sizeof(s.marker->text) - 1);
+      std::memcpy((void *)s.marker->text, text.data(), n);
+      ((char *)s.marker->text)[n] = 0;
+    }
+  }
+  inline bool is_dead_case()
+  {
+    State &s = st();
+    return std::find(s.dead_cases.begin(), s.dead_cases.end(), s.case_no) != s.dead_cases.end();
   }
   inline void end_case()
   {
@@ -322,6 +339,7 @@ namespace vf
     uint64_t deadline_ms = 0;        // absolute (now_ms based); 0 = none
     size_t rlimit_as_mb = 0;         // address-space limit for children (0 = none)
     uint64_t max_dead_cases = 0;     // stop handing out new work after this many aborted/hung cases (0 = never)
+    uint64_t first_unit = 0;         // debugging aid: start at this unit
     // maps (unit, case text, what) of a dead child to a finding key
     std::function<std::string(uint64_t, const std::string &, const std::string &)> crash_key;
   };
@@ -332,6 +350,7 @@ namespace vf
     int out_fd = -1, err_fd = -1;
     uint64_t first = 0, last = 0; // units [first,last)
     uint64_t skip_through = 0, only_case = 0;
+    std::vector<uint64_t> dead;
     Marker *marker = nullptr;
     bool confirm = false;
     uint64_t limit_ms = 0;
@@ -365,9 +384,10 @@ namespace vf
       uint64_t first, last, skip_through, only_case;
       bool confirm;
       std::string confirm_text, confirm_what;
+      std::vector<uint64_t> dead;
     };
     std::vector<Job> queue; // extra jobs (resumes, confirms) take priority over fresh units
-    uint64_t next = 0;
+    uint64_t next = opt.first_unit;
     std::vector<Child> running;
     std::vector<Marker *> free_markers;
     auto get_marker = [&]() -> Marker *
@@ -388,6 +408,7 @@ namespace vf
       c.last = j.last;
       c.skip_through = j.skip_through;
       c.only_case = j.only_case;
+      c.dead = j.dead;
       c.confirm = j.confirm;
       c.limit_ms = j.confirm ? opt.case_limit_ms * 5 : opt.case_limit_ms;
       c.marker = get_marker();
@@ -422,6 +443,7 @@ namespace vf
         {
           S.case_no = 0;
           S.skip_through = (u == j.first) ? j.skip_through : 0;
+          S.dead_cases = (u == j.first) ? j.dead : std::vector<uint64_t>();
           S.only_case = (u == j.first) ? j.only_case : 0;
           c.marker->unit = u;
           c.marker->active = 0;
@@ -559,7 +581,7 @@ namespace vf
           }
           else if (!c.marker->active && what != "hang")
           { // died outside any case: harness problem
-            std::fprintf(stderr, "driver: child for units [%llu,%llu) died outside a case: %s\n%s\n", (unsigned long long)c.first, (unsigned long long)c.last, what.c_str(), err.c_str());
+            std::fprintf(stderr, "driver: child for units [%llu,%llu) died outside a case: %s\n%s\nlast note: %s\n", (unsigned long long)c.first, (unsigned long long)c.last, what.c_str(), err.c_str(), text.c_str());
             std::exit(2);
           }
           else
@@ -581,7 +603,11 @@ namespace vf
             S.sink.counters["cases_aborted_or_hung"] += 1;
             // resume the unit after the offending case, then the rest of the batch
             if (!rr.stopped_early)
-              queue.push_back(Job{u, c.last, k, 0, false, "", ""});
+            {
+              std::vector<uint64_t> dead = (u == c.first) ? c.dead : std::vector<uint64_t>();
+              dead.push_back(k);
+              queue.push_back(Job{u, c.last, k, 0, false, "", "", dead});
+            }
             done_units += (u - c.first);
           }
         }
